@@ -423,7 +423,7 @@ theorem failCopy_pres (fuel : Nat) (s : S) (old : List (Nat × Val)) (h : I s) :
   · rename_i s' e heq; rw [heq] at h1; exact h1
 
 theorem copyPanel_pres (fuel : Nat) (fh : Bool) (s : S) (ps : List (Option Nat × Nat))
-    (old : List (Nat × Val)) (h : I s) : I (copyPanel P fuel fh s ps old).1 := by
+    (old : List (Nat × Val)) (h : I s) : I (copyPanel P fuel fh s ps old).1.1 := by
   induction ps generalizing s old with
   | nil => exact h
   | cons p ps ih =>
@@ -453,8 +453,18 @@ theorem copyValues_pres (fuel : Nat) (fh : Bool) (s : S) (pin pout : List (Optio
   unfold copyValues
   have h1 := copyPanel_pres hp fuel fh s pin [] h
   split
-  · rename_i s' heq; rw [heq] at h1; exact copyPanel_pres hp fuel fh s' pout [] h1
-  · rename_i s' e heq; rw [heq] at h1; exact h1
+  · rename_i s' oldIn heq
+    rw [heq] at h1
+    have h2 := copyPanel_pres hp fuel fh s' pout [] h1
+    split
+    · rename_i s'' _ heq2; rw [heq2] at h2; exact h2
+    · rename_i s'' e _ heq2
+      rw [heq2] at h2
+      have h3 := undo_pres hp fuel s'' oldIn h2
+      split
+      · rename_i s3 heq3; rw [heq3] at h3; exact h3
+      · rename_i s3 e' heq3; rw [heq3] at h3; exact h3
+  · rename_i s' e _ heq; rw [heq] at h1; exact h1
 
 theorem setOutputs_pres (fuel : Nat) (s : S) (os : List Nat) (vs : List Val) (h : I s) :
     I (setOutputs P fuel s os vs).1 := by
@@ -509,7 +519,8 @@ theorem restoreConns_pres (st : S) (res l : List (Nat × Nat)) (h : I st) :
       · rename_i st' heq; rw [heq] at h1; exact ih st' h1
       · rename_i st' e heq; rw [heq] at h1; exact h1
 
-theorem forge_pres (fuel : Nat) (st : S) (a b : Nat) (h : I st) : I (forge P fuel st a b).1 := by
+theorem forge_pres (fuel : Nat) (push : Bool) (st : S) (a b : Nat) (h : I st) :
+    I (forge P fuel push st a b).1 := by
   unfold forge
   split
   · exact link_pres hp fuel st a (some b) h
@@ -519,8 +530,8 @@ theorem forge_pres (fuel : Nat) (st : S) (a b : Nat) (h : I st) : I (forge P fue
       refine hp.recv st a (some b) ?_ h
       intro x hx; cases hx; exact Decidable.not_not.mp hk
 
-theorem restoreLinks_pres (fuel : Nat) (must : Bool) (pre : S) (res : List (Nat × Nat)) (st : S) (l : List Nat)
-    (h : I st) : I (restoreLinks P fuel must pre res st l).1 := by
+theorem restoreLinks_pres (fuel : Nat) (must push : Bool) (pre : S) (res : List (Nat × Nat)) (st : S)
+    (l : List Nat) (h : I st) : I (restoreLinks P fuel must push pre res st l).1 := by
   induction l generalizing st with
   | nil => exact h
   | cons a l ih =>
@@ -532,7 +543,7 @@ theorem restoreLinks_pres (fuel : Nat) (must : Bool) (pre : S) (res : List (Nat 
     · split
       · exact h
       · rename_i b' _
-        have h1 := forge_pres hp fuel st a b' h
+        have h1 := forge_pres hp fuel push st a b' h
         split
         · rename_i st' heq; rw [heq] at h1; exact ih st' h1
         · rename_i st' e heq; rw [heq] at h1; exact h1
@@ -547,11 +558,11 @@ theorem restoreComp_pres (fuel : Nat) (pre st : S) (C : Comp) (h : I st) :
   · rename_i st1 e heq; rw [heq] at h1; exact h1
   · rename_i st1 heq
     rw [heq] at h1
-    have h2 := restoreLinks_pres hp fuel true pre C.resIn st1 C.mins h1
+    have h2 := restoreLinks_pres hp fuel true P.cfg.pushIn pre C.resIn st1 C.mins h1
     split
     · rename_i st2 e heq2; rw [heq2] at h2; exact h2
     · rename_i st2 heq2; rw [heq2] at h2
-      exact restoreLinks_pres hp fuel false pre C.resMOut st2 C.couts h2
+      exact restoreLinks_pres hp fuel false P.cfg.pushOut pre C.resMOut st2 C.couts h2
 
 theorem restoreAll_pres (fuel : Nat) (pre st : S) (cs : List Comp) (h : I st) :
     I (restoreAll P fuel pre st cs).1 := by
